@@ -70,7 +70,7 @@ class _Rec:
         return self.text
 
 
-def _l2_fastqhandle(n: int, c0: int, c1: int, c2: int, k: int, maxh: int) -> bool:
+def _l2_fastqhandle(n: int, c0: int, c1: int, c2: int, k: int, maxh: int, stale: bool) -> bool:
     """
     pre: 1 <= n <= 3
     pre: 0 <= c0 <= 1 and 0 <= c1 <= 1 and 0 <= c2 <= 1
@@ -80,6 +80,9 @@ def _l2_fastqhandle(n: int, c0: int, c1: int, c2: int, k: int, maxh: int) -> boo
     """
     fs = MemFS(limit=k)
     _install(fs)
+    if stale:   # files of an earlier run at the same output location must be replaced, not appended to
+        fs.files['out/lib.1.CS2.R1.fastq.gz'] = ['@old/1\nT\n+\nI\n']
+        fs.files['out/lib.1.CS2.R2.fastq.gz'] = ['@old/2\nT\n+\nI\n']
     fh = FHmod.FastqHandle('out/lib', pairedEnd=True, single_cell=True, maxHandles=maxh)
     fh.handles.pruneEvery = 2
     cells = [c0, c1, c2][:n]
@@ -95,7 +98,7 @@ def _l2_fastqhandle(n: int, c0: int, c1: int, c2: int, k: int, maxh: int) -> boo
     fh.close()
     if fs.open_count != 0:
         return False
-    if set(k_ for k_ in fs.files if fs.files[k_]) != set(exp):
+    if set(k_ for k_ in fs.files if fs.files[k_]) - set(['out/lib.1.CS2.R1.fastq.gz', 'out/lib.1.CS2.R2.fastq.gz'] if stale else []) != set(exp) - set(['out/lib.1.CS2.R1.fastq.gz', 'out/lib.1.CS2.R2.fastq.gz'] if stale else []):
         return False
     for key in exp:
         if fs.content(key) != exp[key]:
